@@ -81,3 +81,34 @@ def raw_fields(S, theory, rhos, phis, kz, alpha, n=1.59, r=0.5, k=12.0, n_med=1.
     pos = positions(S, rhos, phis, kz)
     sph = Sphere(n=n, r=r, center=(0, 0, 0))
     return theory.raw_fields(pos, sph, k, n_med, pol_vector(S, alpha))
+
+
+def install_stub_calculator_class(S, log):
+    """Replaces the calculator CLASSES used by MieLens / AberratedMieLens (the real _create_calculator methods run):
+    the stub records its constructor arguments and returns uninterpreted fields E_pll/E_prp(k rho, phi, kz, m, x)."""
+    Epll = S.cfunc('Epll', 5)
+    Eprp = S.cfunc('Eprp', 5)
+
+    class StubCalculator:
+        def __init__(self, particle_kz=None, index_ratio=None, size_parameter=None, lens_angle=None, **kw):
+            self.particle_kz = particle_kz
+            self.index_ratio = index_ratio
+            self.size_parameter = size_parameter
+            self.lens_angle = lens_angle
+            self.kwargs = dict(kw)
+            log.append(self)
+
+        def calculate_scattered_field(self, krho, phi):
+            n = len(krho)
+            a = np.empty(n, dtype=object if S.sym else complex)
+            b = np.empty(n, dtype=object if S.sym else complex)
+            for i in range(n):
+                a[i] = Epll(krho[i], phi[i], self.particle_kz, self.index_ratio, self.size_parameter)
+                b[i] = Eprp(krho[i], phi[i], self.particle_kz, self.index_ratio, self.size_parameter)
+            return a, b
+
+        def _calculate_incident_field(self):
+            return -1.0, 0.0
+    S.patch(ml_mod, 'MieLensCalculator', StubCalculator, both=True)
+    S.patch(ml_mod, 'AberratedMieLensCalculator', StubCalculator, both=True)
+    return StubCalculator
